@@ -2,7 +2,7 @@
    for closed, checked programs run in the asynchronous polarized mode (the CLI's default). *)
 From stdpp Require Import gmap strings.
 Require Import Grits.Base Grits.STypes Grits.Forms Grits.Expand Grits.Tc Grits.TcTop Grits.Runtime Grits.Cli
-               Grits.spec.Topo Grits.proofs.RtSafety Grits.proofs.RtTheorems Grits.proofs.RtTcSyn Grits.proofs.RtTheoremsTc Grits.proofs.CliProofs.
+               Grits.spec.Topo Grits.proofs.RtSafety Grits.proofs.RtTheorems Grits.proofs.RtTcSyn Grits.proofs.RtTheoremsTc Grits.proofs.RtTheoremsFinal Grits.proofs.CliProofs.
 
 Lemma cli_checked_async_exits_zero pick fuel f s p p' :
   parse_string s = POk p -> typecheck_on f = true -> typecheck p = Accept p' ->
@@ -31,6 +31,20 @@ Proof.
   destruct (execute_on f); [|cbn; auto].
   rewrite Hm. unfold cli_run.
   pose proof (safety_all_modes_parsed_partial s p p' md Hp Hc Hf Htopo fuel pick) as Hsafe.
+  destruct (exec_run fuel pick md (p_types p') (p_funs p') (init_config p')) as [c|c who e|c] eqn:E; cbn; auto.
+  exfalso. exact (Hsafe c who e eq_refl).
+Qed.
+
+(* final form: no premise beyond parsed, checked, closed (C01's safety_all_modes_parsed) *)
+Lemma cli_checked_closed_exits_zero pick fuel f s p p' md :
+  parse_string s = POk p -> typecheck_on f = true -> typecheck p = Accept p' ->
+  run_mode f = Some md -> in_fragment p' ->
+  co_exit (cli pick fuel f (Some s)) = 0 /\ co_trace (cli pick fuel f (Some s)) = false /\ co_diags (cli pick fuel f (Some s)) = 0.
+Proof.
+  intros Hp Ht Hc Hm Hf. unfold cli. rewrite Hp, Ht, Hc.
+  destruct (execute_on f); [|cbn; auto].
+  rewrite Hm. unfold cli_run.
+  pose proof (safety_all_modes_parsed s p p' md Hp Hc Hf fuel pick) as Hsafe.
   destruct (exec_run fuel pick md (p_types p') (p_funs p') (init_config p')) as [c|c who e|c] eqn:E; cbn; auto.
   exfalso. exact (Hsafe c who e eq_refl).
 Qed.
